@@ -2,6 +2,7 @@ import XmppModel.Model.Header
 import XmppModel.Model.StreamNeg
 import XmppModel.Model.Bind
 import XmppModel.Model.HeaderSend
+import XmppModel.Model.NegValue
 import XmppModel.Model.Jid
 import XmppModel.Lemmas.Header
 import XmppModel.Generated.C12
@@ -675,6 +676,74 @@ theorem C12_bind_reply (remote reqId : String) (reqRes : Option String) (reqTo r
     (cb ≠ .default → (server remote reqId reqRes reqTo reqFrom cb).cbArgs = some (remote, reqRes.getD "")) := by
   cases cb <;> simp [server, hto, hfrom] <;> (intro q hq; subst hq; simp)
 
+/-! ### Round E: the stanza's own attributes are the unqualified ones (review B, C12-1) -/
+
+/-- the stanza's own attribute only depends on the unqualified attributes of the start element -/
+theorem iqField_own (attrs : List Bind.Attr) (loc : String) :
+    iqField attrs loc = iqField (attrs.filter Bind.Attr.own) loc := by
+  unfold iqField
+  rw [List.filter_filter]
+  congr 2
+  apply List.filter_congr
+  intro a _
+  cases h : a.own <;> simp [h]
+
+/-- **The request's id is the request's id.**  The receiver answers with the value of the
+UNQUALIFIED `id` attribute of the request (the empty id when there is none), addresses the reply
+to the unqualified `from` and from the unqualified `to` — and two requests whose start elements
+have the same unqualified attributes are served identically: attributes called `id`, `type`, `to`,
+`from` in ANY namespace, before or after the plain ones, with any value (valid address or not),
+change neither the reply, nor the callback's arguments, nor the verdict. -/
+theorem C12_bind_reply_attrs (pj : String → Option String) (remote : String) (attrs : List Bind.Attr)
+    (reqRes : Option String) (cb : Callback) :
+    (∀ q, (serverA pj remote attrs reqRes cb).reply = some q →
+      q.id = strOf (iqField attrs "id") ∧
+      q.to = addrOf (addrField pj (iqField attrs "from")) ∧
+      q.src = addrOf (addrField pj (iqField attrs "to"))) ∧
+    (∀ attrs', attrs'.filter Bind.Attr.own = attrs.filter Bind.Attr.own →
+      serverA pj remote attrs' reqRes cb = serverA pj remote attrs reqRes cb) := by
+  constructor
+  · intro q hq
+    unfold serverA at hq
+    by_cases hinv : addrField pj (iqField attrs "to") = .invalid ∨ addrField pj (iqField attrs "from") = .invalid
+    · simp [server, hinv] at hq
+    · have h1 : addrField pj (iqField attrs "to") ≠ .invalid := fun h => hinv (Or.inl h)
+      have h2 : addrField pj (iqField attrs "from") ≠ .invalid := fun h => hinv (Or.inr h)
+      exact (C12_bind_reply remote _ reqRes _ _ cb h1 h2).1 q hq
+  · intro attrs' h
+    unfold serverA
+    rw [iqField_own attrs' "id", iqField_own attrs' "to", iqField_own attrs' "from", h,
+      ← iqField_own, ← iqField_own, ← iqField_own]
+
+/-- the same for the initiating side: which reply counts as "the answer to my request" (id), and
+as what (type), is read from the unqualified attributes only -/
+theorem C12_bind_adopt_attrs (addr reqId : String) (attrs attrs' : List Bind.Attr) (jid : JidField)
+    (c : Option String) (h : attrs'.filter Bind.Attr.own = attrs.filter Bind.Attr.own) :
+    client addr (replyA reqId attrs' jid c) = client addr (replyA reqId attrs jid c) ∧
+    ((client addr (replyA reqId attrs jid c)).ready = true →
+      iqField attrs "id" = some reqId ∨ (iqField attrs "id" = none ∧ reqId = "")) := by
+  constructor
+  · unfold replyA
+    rw [iqField_own attrs' "id", iqField_own attrs' "type", h, ← iqField_own, ← iqField_own]
+  · intro hr
+    have := ((C12_bind_adopt addr (replyA reqId attrs jid c)).1.mp hr)
+    obtain ⟨j, c', hj⟩ := this
+    simp only [replyA, Reply.iq.injEq, beq_iff_eq] at hj
+    cases hid : iqField attrs "id" with
+    | none => right; simp [hid, strOf] at hj; exact ⟨rfl, hj.1⟩
+    | some v => left; simp [hid, strOf] at hj; rw [hj.1]
+
+/-- non-vacuity and the failure the repair removed: request `<iq xmlns:p=… p:id='evil' id='real'
+type='set'>`: the model answers `real`; the lookup by local name in any namespace (`attr.Get`, the
+code before the repair) answers `evil` -/
+theorem C12_bind_any_namespace_lookup_fails :
+    ∃ attrs : List Bind.Attr,
+      (∀ q, (serverA some "a@b" attrs none .default).reply = some q → q.id = "real") ∧
+      (serverA some "a@b" attrs none .default).reply ≠ none ∧
+      anyNsField attrs "id" = some "evil" ∧ iqField attrs "id" = some "real" :=
+  ⟨[⟨"xmlns", "p", "urn:p"⟩, ⟨"urn:p", "id", "evil"⟩, ⟨"", "id", "real"⟩, ⟨"", "type", "set"⟩],
+    by decide, by decide, by decide, by decide⟩
+
 /-- every random value `serveAll k` assigns was drawn at or after position `k`, and they
 increase strictly in the order of the sessions -/
 theorem randomIds_serveAll (rs : List Req) : ∀ k,
@@ -728,6 +797,20 @@ example : randomIds (serveAll 0 [⟨"a@b", "1", none, .absent, .absent, .default
     ⟨"a@b", "3", none, .invalid, .absent, .default⟩,
     ⟨"a@b", "4", none, .absent, .absent, .default⟩]) = [0, 1] := by decide
 
+/-- regenerated by running REAL receiving sessions one after the other on ONE feature value
+(`BindResource()` and `BindCustom(echo)`), 2 to 4 sessions with their own remote address, request id
+and requested resource: every reply carries its own request's id and its own session's address, the
+default callback hands out non-empty pairwise distinct resources and the custom one is called with
+each session's own request — the behaviour the closure facts `bindClosureWrites` /
+`bindCapturedCallResults` approximate syntactically; and the model's `serveAll` assigns `k` distinct
+random values to `k` such sessions -/
+theorem C12_gen_bind_shared_probe :
+    Generated.C12.bindSharedProbe = some (["default", "custom"].flatMap fun kind =>
+      [2, 3, 4].map fun k => (kind, k, true, true, true)) ∧
+    (∀ k ∈ [2, 3, 4], (randomIds (serveAll 0 ((List.range k).map fun i =>
+      (⟨s!"u{i}@h{i}.example", s!"req{i}", some s!"res{i}", .absent, .absent, .default⟩ : Req)))).length = k) := by
+  refine ⟨by decide, by decide⟩
+
 theorem C12_bind_bad_request_address (remote reqId : String) (reqRes : Option String)
     (reqTo reqFrom : JidField) (cb : Callback) (h : reqTo = .invalid ∨ reqFrom = .invalid) :
     (server remote reqId reqRes reqTo reqFrom cb).reply = none ∧
@@ -777,6 +860,63 @@ theorem C12_gen_send_history_probe :
       [false, true].flatMap fun ws => [false, true].map fun recv => (h, ws, recv, "same")) := by decide
 
 end SendHistory
+
+/-! ### Round E: one `Negotiator` value serves many sessions -/
+
+section NegValue
+open XmppModel.Header XmppModel.NegValue
+
+/-- **a negotiator value keeps nothing between sessions**: whichever sessions (kinds, roles,
+framings, addresses) the value served before and whatever its closure variables held, the header
+it sends for a session is the header of THAT session's own state; a peer reading it recovers that
+session's arguments, and on TCP the content namespace it declares is the one of the session's own
+stream kind (`jabber:server` iff the session has the S2S bit). -/
+theorem C12_negotiator_value_independent (before : List Sess) (s : Sess) (m : Option Bool) :
+    headers true m (before ++ [s]) = headers true m before ++ [printHeader s.own] ∧
+    readHeader (printHeader s.own) = some (expected s.own) ∧
+    (s.ws = false → (⟨[], kXmlns⟩, contentNS s.s2s) ∈ (expected s.own).attrs) := by
+  refine ⟨?_, C12_header_roundtrip s.own, ?_⟩
+  · simp [headers, serveAll_perSession]
+  · intro h
+    simp [expected, Sess.own, h]
+
+example : headers true none [⟨false, false, [], "example.net".toList, [], []⟩,
+      ⟨false, true, [], "example.org".toList, "example.net".toList, []⟩] =
+    [printHeader ⟨false, false, [], "example.net".toList, [], []⟩,
+     printHeader ⟨false, true, [], "example.org".toList, "example.net".toList, []⟩] := by
+  simp [headers, serveAll_perSession, Sess.own]
+
+set_option maxRecDepth 100000 in
+/-- witness that "per session" is what makes it true: a negotiator value that works the content
+namespace out on first use and keeps it in the closure serves a c2s session and then an s2s session
+— the second header declares `jabber:client`, so the peer does not recover the content namespace
+of that stream -/
+theorem C12_negotiator_memo_namespace_fails :
+    ∃ a b : Sess, ∃ h1 h2, headers false none [a, b] = [h1, h2] ∧
+      readHeader h1 = some (expected a.own) ∧
+      readHeader h2 ≠ some (expected b.own) ∧
+      readHeader h2 = some (expected { b.own with s2s := false }) :=
+  ⟨⟨false, false, [], "example.net".toList, [], []⟩,
+   ⟨false, true, [], "example.org".toList, "example.net".toList, []⟩, _, _, rfl,
+   by decide, by decide, by decide⟩
+
+/-- the expected probe table: every sequence of 2 and 3 session kinds (role × c2s/s2s) per framing;
+the last session writes what it writes alone and reports its own content namespace -/
+def negSharedExpected : List (Bool × List Nat × String × String) :=
+  [false, true].flatMap fun ws =>
+    (List.range 4).flatMap fun a => (List.range 4).flatMap fun b =>
+      let row (sq : List Nat) (last : Nat) : Bool × List Nat × String × String :=
+        (ws, sq, "same", String.mk (contentNS (decide (2 ≤ last))))
+      row [a, b] b :: (List.range 4).map fun c => row [a, b, c] c
+
+/-- regenerated by running REAL sessions on ONE `Negotiator` value: for every sequence of two and
+three sessions over the four kinds (initiating / receiving × c2s / s2s) and both framings, the last
+session writes byte for byte what it writes on a negotiator value of its own, and `Session.Out()`
+reports the content namespace of its own kind — which is what the model's `contentNS` says -/
+theorem C12_gen_neg_shared_probe :
+    Generated.C12.negSharedProbe = some negSharedExpected := by decide
+
+end NegValue
 
 /-! ### Round D: the address comparison behind every header check -/
 
